@@ -414,7 +414,8 @@ def validate(fam, theta):
     Fc = fam.fisher(theta)
     sc = 1. + np.abs(Fc).max()
     Es = W @ g
-    return dict(score_vs_jaxgrad=float(np.abs(g - gj).max() / (1. + np.abs(gj).max())),
+    gp, gjp = (g, gj) if T is None else (g @ T, gj @ T)
+    return dict(score_vs_jaxgrad=float(np.abs(gp - gjp).max() / (1. + np.abs(gjp).max())),
                 nlp_vs_scipy=float(np.abs(vj + fam.logpdf(theta, D)).max() / (1. + np.abs(vj).max())),
                 fisher_score_vs_closed=float(np.abs(proj(Fs - Fc, T)).max() / sc),
                 fisher_hessian_vs_closed=float(np.abs(proj(Fh - Fc, T)).max() / sc),
